@@ -459,6 +459,7 @@ def run_signatures(chk, drv, model, base):
     kind, i, j = pairs[0]
     chk.sample(dict(kind="pair", edit=kind, signatures=[s1[i], s1[j]], model_tokens=[toks[i], toks[j]]))
     run_nodes(chk, drive, model, base)
+    run_other_tools(chk, drive, model, base)
 
 def run_nodes(chk, drive, model, base):
     """BuildNode::getSignature: type and producers' names (tie + pairs)."""
@@ -520,6 +521,65 @@ def run_nodes(chk, drive, model, base):
                               dict(file=path, node=nm.decode("utf-8", "replace"), model_tokens=tk), found_input=False, broken="correspondence: BSys.Sig.node_sig_tokens")
     chk.cov["node_cases"] = len(cases)
     chk.cov["node_disagreements"] = dis
+
+def run_other_tools(chk, drive, model, base):
+    """symlink (own chain: first output, contents, inputs) and stale-file-removal (Command::getSignature: the name)."""
+    rng = chk.rng
+    odir = os.path.join(base, "other")
+    os.makedirs(odir)
+    cases = []
+    def emit(text):
+        path = os.path.join(odir, "%d.llbuild" % len(cases))
+        with open(path, "wb") as f:
+            f.write(b"client:\n  name: basic\n\ncommands:\n" + text)
+        return path
+    for n in range(chk.n(80, 800)):
+        name, out, contents = rnd_bytes(rng, allow_empty=False), rnd_node(rng), rnd_bytes(rng)
+        ins = rnd_list(rng, rnd_node, 3)
+        for variant in range(2):
+            if variant == 1:
+                which = rng.choice(["contents", "inputs", "output"])
+                if which == "contents":
+                    contents = other_bytes(rng, contents)
+                elif which == "inputs":
+                    ins = ins + [rnd_node(rng)]
+                else:
+                    out = out + b"x"
+            text = b"  " + yq(name) + b":\n    tool: symlink\n"
+            if ins:
+                text += b"    inputs: " + ylist(ins) + b"\n"
+            text += b"    outputs: " + ylist([out]) + b"\n    contents: " + yq(contents) + b"\n"
+            cases.append(dict(kind="symlink", group=n, variant=variant, path=emit(text), name=name, out=out, key=(out, contents, tuple(ins)),
+                              mreq="symlink_tokens %s %s %s" % (hx(out), hx(contents), fl(ins)), fold="fold "))
+    for n in range(chk.n(30, 300)):
+        name = rnd_bytes(rng, allow_empty=False)
+        text = b"  " + yq(name) + b":\n    tool: stale-file-removal\n    expectedOutputs: " + ylist([rnd_node(rng) for _ in range(rng.randint(0, 3))]) + b'\n    outputs: ["<sfr>"]\n'
+        cases.append(dict(kind="stale-file-removal", group=-1, variant=0, path=emit(text), name=name, out=b"<sfr>", key=(name,),
+                          mreq="plain_tokens %s" % hx(name), fold="fold0 "))
+    rc, ans, err = drive(["sig %s %s %s" % (c["path"], hx(c["name"]), hx(c["out"])) for c in cases])
+    if rc != 0 or len(ans) != len(cases):
+        chk.violation("sig-driver-crash-other-tools", "the implementation crashed while loading a generated symlink / stale-file-removal description", dict(rc=rc, stderr=err[-1500:]), found_input=True)
+        return
+    rcm, toks, em = vlib.run_lines(model, [c["mreq"] for c in cases])
+    rcf, folds, ef = drive([c["fold"] + t for c, t in zip(cases, toks)])
+    dis, prev = 0, None
+    for c, a, tk, fo in zip(cases, ans, toks, folds):
+        if a.startswith("ERR"):
+            chk.notes.setdefault("other_tool_rejections", []).append(a[:200])
+            prev = None
+            continue
+        chk.count((c["kind"], tk))
+        if a != fo:
+            dis += 1
+            if dis == 1:
+                chk.violation("other-tool-token-correspondence", "%s command: getSignature() (%s) differs from the fold of the model's tokens (%s)" % (c["kind"], a, fo),
+                              dict(file=c["path"], model_tokens=tk), found_input=False, broken="correspondence: BSys.Sig.symlink_sig_tokens / plain_sig_tokens")
+        if c["kind"] == "symlink" and c["variant"] == 1 and prev is not None and prev[0]["group"] == c["group"] and prev[0]["key"] != c["key"] and prev[1] == a:
+            chk.violation("symlink-sig-collision", "two symlink commands that differ in output, contents or inputs have the same signature %s" % a,
+                          dict(files=[prev[0]["path"], c["path"]]), found_input=True, broken="c09 oracle: different definitions have different signatures")
+        prev = (c, a)
+    chk.cov["other_tool_cases"] = len(cases)
+    chk.cov["other_tool_disagreements"] = dis
 
 # ---------------------------------------------------------------- (d) CLI
 
@@ -704,10 +764,11 @@ def run(chk):
     if not chk.violations:
         shutil.rmtree(os.path.join(base, "defs"), ignore_errors=True)
         shutil.rmtree(os.path.join(base, "nodes"), ignore_errors=True)
+        shutil.rmtree(os.path.join(base, "other"), ignore_errors=True)
     chk.assumptions = ["ideal hash: llvm::hash_value / llvm::hash_combine are collision-free on the token lists compared (premise of every c09_*sig* theorem; 64-bit values in the implementation)",
                        "list lengths are below 2^64 (uint64_t(size()) does not wrap)",
                        "generated byte strings are valid UTF-8 without U+0085/U+2028/U+2029 (they must survive the YAML loader unchanged); node names are relative paths",
-                       "custom tools (clang, swift-compiler, archive, shell tool plug-ins) are not modelled; symlink and stale-file-removal token lists are modelled but only the external-command family is tied",
+                       "custom tools (clang, swift-compiler, archive, shell tool plug-ins) are not modelled; shell, phony, mkdir, symlink and stale-file-removal signatures are modelled and tied",
                        "re-run decision model (rerun_decision) is tied to the code by the CLI scenarios only"]
     return chk.finish(level="proof",
                       rule="signatures: random shell / phony / mkdir definitions over an alphabet of YAML-hostile atoms (quotes, escapes, control bytes, multi-byte UTF-8, empty strings, duplicate and shared node names, explicit signature) loaded by the real loader; "
